@@ -34,7 +34,7 @@ EXTRA_SYMBOLS = [
     "validation", "inference", "model", "additional_models", "models", "physics", "forward_operator", "backward_operator",
     "accelerations", "FastMRIRandom", "FakeMRIBlobs", "NoSuchEngine", "fft2", "ifft2", "no_such_operator", "fft2(centered=False)",
     "", "x", "unet.unet_2d.Unet2d", "Unet2dEngine", "rim.rim.RIM", "logging", "crop", "cropping", "lr", "batch_size",
-    "SENSE", "sense", "InitType.SENSE", "true", "off", "1", "0", "1e-4", "nan", "STATIC", "static", "DYNAMIC",
+    "SENSE", "sense", "InitType.SENSE", "unet.unet_2d.UnetModel2d", "UNetJSSLEngine", "UNetSSLEngine", "Unet2dJSSLEngine", "Unet2dSSLEngine", "cwn_conv", "true", "off", "1", "0", "1e-4", "nan", "STATIC", "static", "DYNAMIC",
     "seed", "mode", "center_fractions", "uniform_range", "loss", "losses", "function", "multiplier", "l1_loss", "metrics",
     "CalgaryCampinas", "FastMRI", "H5Slice", "unet.Unet2d", "Unet2d", "UNET", "unet", "scaling_key", "normalization",
     "image_center_crop", "padding_eps", "use_seed", "delete_kspace", "estimate_sensitivity_maps", "sensitivity_map_estimation",
@@ -47,6 +47,14 @@ NAMED_MODULES = ["direct.data.datasets_config", "direct.data.datasets", "direct.
 
 def cps(s: str) -> str:
     return "[" + ", ".join(str(ord(c)) for c in s) + "]"
+
+
+def packed(s: str) -> str:
+    """code points as digits in base 2^21, first character lowest (Model/Config.lean `pack`)"""
+    n = 0
+    for c in reversed(s):
+        n = n * 2097152 + ord(c)
+    return str(n)
 
 
 def str_kind(s: str) -> int:
@@ -81,7 +89,7 @@ class Info:
         self.builder_varkw = False
         self.mask_required: list[str] = []
         self.mask_params: list[str] = []
-        self.model_inits: dict[tuple[str, str], tuple[list[str], bool]] = {}
+        self.model_inits: dict[tuple[str, str], tuple[list[str], list[str], bool]] = {}
         self.instance_defaults: list[str] = []
         self.undecorated: list[str] = []
         self.unsupported_types: list[str] = []
@@ -113,6 +121,32 @@ def load_yaml(path: pathlib.Path):
     from omegaconf import OmegaConf
 
     return OmegaConf.to_container(OmegaConf.load(path), resolve=False)
+
+
+def load_yaml_cached(path: pathlib.Path):
+    """parsed tree, cached under /verif/.build by the SHA-256 of the file's bytes (the pure-Python YAML parser needs ~6 s
+    for the 87 files; the key is the content, so an edited file is always re-parsed)"""
+    import pickle
+
+    import omegaconf
+
+    data = path.read_bytes()
+    d = GEN_DIR.parents[2] / ".build" / "c20_yaml_cache"
+    f = d / (hashlib.sha256(data + omegaconf.__version__.encode()).hexdigest() + ".pkl")
+    if f.exists():
+        try:
+            return pickle.loads(f.read_bytes())
+        except Exception:  # noqa: BLE001
+            pass
+    c = load_yaml(path)
+    try:
+        d.mkdir(parents=True, exist_ok=True)
+        tmp = f.with_suffix(f".tmp{os.getpid()}")
+        tmp.write_bytes(pickle.dumps(c))
+        os.replace(tmp, f)
+    except OSError:
+        pass
+    return c
 
 
 def _collect_strings(info: Info, v):
@@ -192,7 +226,7 @@ def introspect(force: bool = False) -> Info:
     for p in yaml_files():
         rel = str(p.relative_to(REPO))
         try:
-            c = load_yaml(p)
+            c = load_yaml_cached(p)
         except BaseException as e:  # noqa: BLE001
             info.parse_failures.append((rel, repr(e)[:300]))
             continue
@@ -277,7 +311,9 @@ def introspect(force: bool = False) -> Info:
                     and vars(mod)[cls_name].__module__ == name:
                 sig = inspect.signature(vars(mod)[cls_name].__init__)
                 ps = [p.name for p in sig.parameters.values() if p.kind not in (p.VAR_KEYWORD, p.VAR_POSITIONAL)][1:]
-                info.model_inits[(m, n)] = (ps, any(p.kind == p.VAR_KEYWORD for p in sig.parameters.values()))
+                req = [p.name for p in list(sig.parameters.values())[1:]
+                       if p.kind not in (p.VAR_KEYWORD, p.VAR_POSITIONAL) and p.default is inspect.Parameter.empty]
+                info.model_inits[(m, n)] = (ps, req, any(p.kind == p.VAR_KEYWORD for p in sig.parameters.values()))
                 info.strings.update(ps)
     info.symbols = sorted(info.strings)
     info.sym = {s: i for i, s in enumerate(info.symbols)}
@@ -390,6 +426,18 @@ def _lean_ty(info: Info, hint, where: str) -> str:
     return ".any"
 
 
+def chunked(name: str, ty: str, items: list[str], size: int = 48) -> str:
+    """a long list literal as a concatenation of short ones (the elaborator recurses on the literal's length)"""
+    parts = []
+    names = []
+    for i in range(0, len(items), size):
+        n = f"{name}_{i // size}"
+        names.append(n)
+        parts.append(f"def {n} : {ty} := [\n  " + ",\n  ".join(items[i:i + size]) + "]")
+    parts.append(f"def {name} : {ty} := " + (" ++ ".join(names) if names else "[]") + "\n")
+    return "\n".join(parts)
+
+
 def emit(info: Info) -> tuple[str, dict]:
     I = info
     pool = Pool(info)
@@ -442,25 +490,25 @@ def emit(info: Info) -> tuple[str, dict]:
     for rel, c in I.configs:
         cfg_entries.append(f"({I.S(rel)}, {pool.val(c)})")
     out.append(f"/-- interned strings: `Sym` -> code points ({len(I.symbols)} entries) -/")
-    out.append("def symbols : List Str := [\n  " + ",\n  ".join(cps(s) for s in I.symbols) + "]\n")
+    out.append(chunked("symbols", "List PStr", [packed(s) for s in I.symbols]))
     out.append("/-! hash-consed YAML containers and dataclass defaults -/")
     out.extend(pool.defs)
     out.append("")
     out.extend(schema_defs)
     out.append("")
     out.append("/-- importable modules and the classes / functions they expose -/")
-    out.append("def modules : ModuleTable := [\n  " + ",\n  ".join(
-        f"({cps(m)}, [" + ", ".join(cps(a) for a in attrs) + "])" for m, attrs in sorted(I.modules.items())) + "]\n")
+    out.append(chunked("modules", "ModuleTable", [
+        f"({packed(m)}, [" + ", ".join(packed(a) for a in attrs) + "])" for m, attrs in sorted(I.modules.items())], 8))
     out.append("/-- every config dataclass: (module, class) -> schema -/")
-    out.append("def schemas : List ((Str × Str) × Ty) := [\n  " + ",\n  ".join(
-        f"(({cps(m)}, {cps(n)}), {emitted[c]})" for (m, n), c in sorted(I.schema_classes.items()) if c in emitted) + "]\n")
+    out.append("def schemas : List ((PStr × PStr) × Ty) := [\n  " + ",\n  ".join(
+        f"(({packed(m)}, {packed(n)}), {emitted[c]})" for (m, n), c in sorted(I.schema_classes.items()) if c in emitted) + "]\n")
     out.append(f"def builderParams : List Sym := {[I.S(p) for p in I.builder_params]}")
     out.append(f"def builderVarKw : Bool := {'true' if I.builder_varkw else 'false'}")
     out.append(f"def maskBuilderRequired : List Sym := {[I.S(p) for p in I.mask_required]}")
-    out.append("/-- model config class -> (parameters of the model's `__init__`, accepts **kwargs) -/")
-    out.append("def modelInits : List ((Str × Str) × (List Sym × Bool)) := [\n  " + ",\n  ".join(
-        f"(({cps(m)}, {cps(n)}), ({[I.S(p) for p in ps]}, {'true' if kw else 'false'}))"
-        for (m, n), (ps, kw) in sorted(I.model_inits.items())) + "]\n")
+    out.append("/-- model config class -> (parameters of the model's `__init__`, those without default, accepts **kwargs) -/")
+    out.append("def modelInits : List ((PStr × PStr) × (List Sym × List Sym × Bool)) := [\n  " + ",\n  ".join(
+        f"(({packed(m)}, {packed(n)}), ({[I.S(p) for p in ps]}, {[I.S(p) for p in req]}, {'true' if kw else 'false'}))"
+        for (m, n), (ps, req, kw) in sorted(I.model_inits.items())) + "]\n")
     out.append("/-- class-level defaults that are dataclass instances or mutable literals (ValueError at import on Python >= 3.11) -/")
     out.append("def instanceDefaults : List Str := [" + ", ".join(cps(s) for s in I.instance_defaults) + "]")
     out.append("/-- config classes with annotated fields but no `@dataclass` decorator -/")
